@@ -535,6 +535,42 @@ pub fn read_prefixes(
 /// Apply every BGP message in `buf` (one flush) to the mirror; returns the number of frames.
 /// A key announced twice with different contents within one flush gets the value `amb`: the two
 /// UPDATEs come out of one `drain_messages` in hash-map order, so the survivor is not determined.
+/// VPNv4 NLRI (RFC 4364): [path id] length in bits, 3 label bytes, 8 bytes of route distinguisher,
+/// the prefix.  Key: 2^127 + rd * 2^32 + address, prefix length.
+pub fn read_vpn4(mut b: &[u8], addpath: bool, out: &mut Vec<Key>) -> Result<(), &'static str> {
+    while !b.is_empty() {
+        let mut pid = 0u32;
+        if addpath {
+            if b.len() < 4 {
+                return Err("short-path-id");
+            }
+            pid = be32(b);
+            b = &b[4..];
+        }
+        if b.is_empty() {
+            return Err("short-prefix");
+        }
+        let bits = b[0] as usize;
+        if bits < 88 || bits > 120 {
+            return Err("bad-vpn-prefix");
+        }
+        let n = (bits + 7) / 8;
+        if b.len() < 1 + n {
+            return Err("bad-vpn-prefix");
+        }
+        let rd = u64::from_be_bytes([b[4], b[5], b[6], b[7], b[8], b[9], b[10], b[11]]);
+        let mut a = [0u8; 4];
+        a[..n - 11].copy_from_slice(&b[12..1 + n]);
+        out.push((
+            (1u128 << 127) + ((rd as u128) << 32) + be32(&a) as u128,
+            (bits - 88) as u8,
+            pid,
+        ));
+        b = &b[1 + n..];
+    }
+    Ok(())
+}
+
 pub fn apply_bytes(buf: &[u8], addpath: bool, m: &mut Mirror) -> Result<usize, &'static str> {
     let mut written: BTreeMap<Key, (Term, Term)> = BTreeMap::new();
     let mut pos = 0usize;
@@ -606,6 +642,24 @@ pub fn apply_bytes(buf: &[u8], addpath: bool, m: &mut Mirror) -> Result<usize, &
                         return Err("bad-nexthop");
                     }
                     nh = Term::tag("v4", vec![Term::nat(be32(v))]);
+                }
+                14 if v.len() >= 5 && (v[0], v[1], v[2]) == (0, 1, 128) => {
+                    let nl = v[3] as usize;
+                    if nl != 12 || v.len() < 5 + nl {
+                        return Err("mp-reach-vpn-nexthop");
+                    }
+                    nh = Term::tag("v4", vec![Term::nat(be32(&v[4 + 8..4 + 12]))]);
+                    read_vpn4(&v[5 + nl..], addpath, &mut reach)?;
+                }
+                15 if v.len() == 3 && (v[0], v[1], v[2]) == (0, 1, 132) => {
+                    // End-of-RIB of the RTC family (nothing else of that family is expected)
+                    v6_eor = true;
+                }
+                15 if v.len() >= 3 && (v[0], v[1], v[2]) == (0, 1, 128) => {
+                    if v.len() == 3 && al == hdr + len && wl == 0 && body.len() == 4 + al {
+                        v6_eor = true; // End-of-RIB of the VPNv4 family
+                    }
+                    read_vpn4(&v[3..], addpath, &mut gone)?;
                 }
                 14 => {
                     if v.len() < 5 || (v[0], v[1], v[2]) != (0, 2, 1) {
